@@ -449,3 +449,16 @@ package immutable
 //@     set last = arg0
 //@   call append with c.chunkItrs
 //@     requires [schema_of_every_source_chunk_is_merged] last == itr.curtChunkMeta
+
+// ================================================================ C02/C03: compaction's k-way merge of chunks
+// The record handed to the writer must not share storage with an iterator's decode buffer, which the following
+// itr.Next() overwrites with the next series of that file: the schema of the popped chunk is copied into the merged
+// record (SetSchema) before any row is merged.
+//@ prop C02 C03
+//@ func (*ChunkIterators).Next
+//@   ghost copied bool = false
+//@   call (*Record).SetSchema on c.merged
+//@     requires [schema_of_the_popped_chunk] arg0 == rec.Schema
+//@     set copied = true
+//@   call (*Record).Merge on c.merged
+//@     requires [schema_copied_before_rows] copied
